@@ -8,3 +8,11 @@ import XzVerif.Props.C02
 #print axioms Props.C02.C02_block_discipline
 #print axioms Props.C02.C02_writer_output_valid_strict_hashtable4
 #print axioms Props.C02.C02_writer_output_valid_strict_bintree
+#print axioms Props.C02.C02_source_translation_complete
+#print axioms Props.C02.C02_source_EncodeBit
+#print axioms Props.C02.C02_source_DirectEncodeBit
+#print axioms Props.C02.C02_source_Close
+#print axioms Props.C02.C02_source_encoder_init
+#print axioms Props.C02.C02_source_byte_limit_is_the_models
+#print axioms Props.C02.C02_source_arithmetic
+#print axioms Props.C02.C02_source_context_addresses
